@@ -301,32 +301,50 @@ PROLOGUE = """(define tr '())
 
 
 def dying_form(c, rng, size):
-    """A form that stores its continuation in a global slot and then dies with an uncaught error (first use)."""
+    """A form that stores its continuation in a global slot and then dies with an uncaught error (first use).
+    The error is raised either INSIDE the receiver of call/cc (the continuation's frame is still on the stack: an
+    open mark at the time of the error) or after call/cc has returned."""
     g = rng.choice(SLOTS)
     k = c.fresh("k")
     fc = c.child(allow_reenter=False)
     inner = gen(fc, max(1, size - 2)) if rng.random() < 0.5 else lit(rng)
-    core = "(call/cc (lambda (%s) (begin (set! %s %s) %s)))" % (k, g, k, inner)
     tag = c.fresh("d")
+    inside = rng.random() < 0.6
+    if inside:
+        c.feat("die-inside-receiver")
+        y = rng.random()
+        if y < 0.5:
+            body = "(+ %s (fuse!))" % inner
+        elif y < 0.75 and c.fns:
+            body = "(%s (+ %s (fuse!)))" % (rng.choice(c.fns)[0], inner)
+        else:
+            body = wrap_winds(rng, "(+ %s (fuse!))" % inner, c.feats, tag + "r", n=rng.choice([1, 2]))
+        core = "(call/cc (lambda (%s) (begin (set! %s %s) %s)))" % (k, g, k, body)
+        fuse = ""
+    else:
+        c.feat("die-after-receiver-returned")
+        core = "(call/cc (lambda (%s) (begin (set! %s %s) %s)))" % (k, g, k, inner)
+        fuse = " (fuse!)"
     x = rng.random()
     c.feat("die-after-capture")
     if x < 0.25:
-        return "(+ 1 %s (fuse!))" % core
+        return "(+ 1 %s%s)" % (core, fuse)
     if x < 0.4:
-        return "(note (+ %s (fuse!)))" % core
+        return "(note (+ %s%s))" % (core, fuse)
     if x < 0.65:
         c.feat("die-inside-wind")
-        return wrap_winds(rng, "(+ %s (fuse!))" % core, c.feats, tag, n=rng.choice([1, 1, 2, 3]))
+        return wrap_winds(rng, "(+ %s%s)" % (core, fuse), c.feats, tag, n=rng.choice([1, 1, 2, 3]))
     if x < 0.75:
-        return "(let ((x %s)) (begin (note '%s) (fuse!) x))" % (core, tag)
+        return "(let ((x %s)) (begin (note '%s)%s x))" % (core, tag, fuse)
     if x < 0.85 and c.fns:
         c.feat("die-inside-call")
-        return "(%s (+ %s (fuse!)))" % (rng.choice(c.fns)[0], core)
+        return "(%s (+ %s%s))" % (rng.choice(c.fns)[0], core, fuse)
     if x < 0.93:
         c.feat("die-handler-reraises")
-        return "(call-with-exception-handler (lambda (e) (begin (note '%s) (error \"again\"))) (lambda () (+ %s (fuse!))))" % (tag, core)
+        return "(call-with-exception-handler (lambda (e) (begin (note '%s) (error \"again\"))) (lambda () (+ %s%s)))" % (tag, core, fuse)
     # the continuation is captured inside a `before` thunk, the error comes from the body
     c.feat("die-capture-in-before-thunk")
+    core = "(call/cc (lambda (%s) (begin (set! %s %s) %s)))" % (k, g, k, inner)
     return "(dynamic-wind (lambda () (begin (note '%s-in) %s)) (lambda () (+ 2 (fuse!))) (lambda () (note '%s-out)))" % (tag, core, tag)
 
 
